@@ -58,6 +58,10 @@ var c04 = gen.Register(&gen.Check[caseC04]{
 			{P: pt.Spec{Base: pt.Base{Kind: "g", Neg: true}, Steps: []pt.Step{{Op: "dblsub"}}}},
 			{P: pt.Spec{Base: pt.Base{Kind: "kg", K: 7}, Steps: []pt.Step{{Op: "rescale", A: "ffffffffffffffffffffffffffffffffffffffffffffffffffffffffefffffc2e"}}}},
 		}
+		// abscissae aimed at the constants found in the sources of the tree under test (the builder moves to the next x on the curve)
+		for i, v := range gen.DictFixed(ref.P, 2*gen.DictStride()) {
+			out = append(out, caseC04{P: pt.Spec{Base: pt.Base{Kind: "liftx", X: gen.H(v), Odd: i%2 == 1, Via: []string{"limbs", "comp", "limbs", "uncomp", "coords"}[i%5]}}})
+		}
 		return out
 	},
 	Required: []string{"p:identity", "odd-y", "even-y", "after-look-alike"},
